@@ -5,11 +5,14 @@ import (
 	"crypto/ecdsa"
 	"fmt"
 	"math/big"
+	"sync/atomic"
 	"testing"
 
 	"github.com/decred/dcrd/dcrec/secp256k1/v4"
+	"github.com/icon-project/goloop/common/codec"
 	"github.com/icon-project/goloop/common/crypto"
 	"github.com/icon-project/goloop/common/wallet"
+	"github.com/icon-project/goloop/module"
 	"github.com/icon-project/goloop/network"
 	"golang.org/x/crypto/sha3"
 	"pgregory.net/rapid"
@@ -260,6 +263,13 @@ func TestC32(t *testing.T) {
 	t.Run("handshake", func(t *testing.T) {
 		ev.Check(t, 10000, 150000, func(rt *rapid.T) { c32Case(rt, rec) })
 	})
+	t.Run("protocol", func(t *testing.T) {
+		ev.Check(t, 1500, 30000, func(rt *rapid.T) { c32Protocol(rt, rec) })
+		if atomic.LoadInt64(&c32HonestPassed) == 0 {
+			ev.Inconclusive("C32: no honest handshake was authenticated (%d refused): the check cannot observe authentication", atomic.LoadInt64(&c32HonestRefused))
+		}
+		rec.LabelN("protocol:honestRefused", int(atomic.LoadInt64(&c32HonestRefused)))
+	})
 	t.Run("sessions", func(t *testing.T) {
 		ev.Check(t, 60, 1200, func(rt *rapid.T) { c32Sessions(rt, rec) })
 	})
@@ -367,3 +377,167 @@ func c32Sessions(rt *rapid.T, rec *ev.Rec) {
 	rec.Case(fmt.Sprintf("sessions: pool of %d keys (base %d), %d sessions, %d distinct peers, %d returning, %d impostors, %d foreign ids", nKeys, base, nSess, len(distinct), returning, impostors, foreign),
 		len(distinct) > 100 && returning > 0, labels...)
 }
+
+// c32Protocol drives the real handshake handlers of an Authenticator (the node under test) from the
+// other end of an in-memory connection. The harness plays the remote peer of either direction
+// (it dials the node, or the node dials it), negotiates a session exactly as a peer would (plain
+// suite, so that it can read the node's packets) and then presents a drawn proof: honest, made for
+// another session (another ephemeral key), made by another key, the public key of another key,
+// mutated, or malformed. Oracle: the node hands the peer on as authenticated ONLY IF the proof is,
+// by the independent verifier, a signature by the presented key over the secret of this very
+// session as the node derived it, and the identity on the peer object is then that key's address.
+func c32Protocol(rt *rapid.T, rec *ev.Rec) {
+	log := hnQuietLogger()
+	kN := gen.KeyFromIndex(7) // the node
+	wN, _ := wallet.NewFromPrivateKey(kN)
+	node := network.VerifNewAuthenticator(wN, log)
+	kA := gen.PrivKey(rt, "peerKey")
+	kB := gen.PrivKey(rt, "otherKey")
+	wA, _ := wallet.NewFromPrivateKey(kA)
+	wB, _ := wallet.NewFromPrivateKey(kB)
+	aA := network.VerifNewAuthenticator(wA, log)
+	aB := network.VerifNewAuthenticator(wB, log)
+	sameKeys := bytes.Equal(kA.Bytes(), kB.Bytes())
+	nodeDials := rapid.Bool().Draw(rt, "nodeDials")
+	class := rapid.SampledFrom([]string{"honest", "honest", "otherSession", "otherSession", "otherKey", "wrongClaim", "mutatedSig", "mutatedPub", "emptySig", "errorReply"}).Draw(rt, "class")
+
+	mine, theirs := hnPipe() // mine: harness end, theirs: node end
+	sess := network.VerifNewAuthSession(node, theirs, !nodeDials, log)
+	rd := network.NewPacketReader(mine)
+	wr := network.NewPacketWriter(mine)
+	recv := func(want module.ProtocolInfo, v interface{}) bool {
+		pkt, err := rd.ReadPacket()
+		if err != nil {
+			return false
+		}
+		f := network.VerifPacketFieldsOf(pkt)
+		if f.Protocol != network.VerifProtoAuth.Uint16() || f.SubProtocol != want.Uint16() {
+			return false
+		}
+		_, err = codec.MP.UnmarshalFromBytes(f.Payload, v)
+		return err == nil
+	}
+	send := func(sub module.ProtocolInfo, v interface{}, src []byte) {
+		f := network.VerifPacketFields{Protocol: network.VerifProtoAuth.Uint16(), SubProtocol: sub.Uint16(), Src: src,
+			Dest: network.VerifDestPeer, TTL: 1, Payload: codec.MP.MustMarshalToBytes(v)}
+		var buf bytes.Buffer
+		if err := network.NewPacketWriter(&buf).WritePacket(network.VerifNewPacket(f)); err != nil {
+			ev.Inconclusive("C32: cannot serialise a handshake packet: %v", err)
+		}
+		_ = wr
+		pkt, err := network.NewPacketReader(&buf).ReadPacket()
+		if err != nil {
+			ev.Inconclusive("C32: cannot parse a handshake packet the harness wrote: %v", err)
+		}
+		sess.Feed(pkt)
+	}
+	srcA := wA.Address().ID()
+	eph, err := network.VerifNewSecureKey(c31Scalar(rt, "ephemeral"))
+	eph2, err2 := network.VerifNewSecureKey(c31Scalar(rt, "ephemeralOther"))
+	if err != nil || err2 != nil {
+		ev.Inconclusive("C32: cannot build ephemeral keys")
+	}
+	var nodeParam []byte
+	if nodeDials {
+		var req network.SecureRequest
+		if !recv(network.VerifProtoAuthSecureRequest, &req) {
+			ev.Inconclusive("C32: the dialling node did not send a secure request")
+		}
+		nodeParam = req.SecureParam
+		send(network.VerifProtoAuthSecureResponse, &network.SecureResponse{Channel: req.Channel, SecureSuite: network.SecureSuiteNone,
+			SecureAeadSuite: network.SecureAeadSuiteNone, SecureParam: eph.PublicKey()}, srcA)
+	} else {
+		send(network.VerifProtoAuthSecureRequest, &network.SecureRequest{Channel: "c32", SecureSuites: []network.SecureSuite{network.SecureSuiteNone},
+			SecureAeadSuites: []network.SecureAeadSuite{network.SecureAeadSuiteChaCha20Poly1305}, SecureParam: eph.PublicKey()}, srcA)
+		var resp network.SecureResponse
+		if !recv(network.VerifProtoAuthSecureResponse, &resp) || resp.SecureSuite != network.SecureSuiteNone {
+			ev.Inconclusive("C32: the node did not answer the secure request with the plain suite")
+		}
+		nodeParam = resp.SecureParam
+	}
+	if sess.Closed() {
+		ev.Inconclusive("C32: the node closed the connection during suite negotiation")
+	}
+	// the session secret as the remote peer derives it, and that of a different session
+	if err := eph.Setup(network.SecureAeadSuiteNone, nodeParam, nodeDials, 2); err != nil {
+		ev.Inconclusive("C32: session key setup failed: %v", err)
+	}
+	if err := eph2.Setup(network.SecureAeadSuiteNone, nodeParam, nodeDials, 2); err != nil {
+		ev.Inconclusive("C32: session key setup failed: %v", err)
+	}
+	secret, other := eph.Extra(), eph2.Extra()
+	nodeSecret := sess.SessionSecret()
+	if !bytes.Equal(secret, nodeSecret) {
+		ev.Inconclusive("C32: both ends derived different session secrets (%x / %x)", secret, nodeSecret)
+	}
+	if nodeDials {
+		// the node proves itself first; the harness does not care
+		var sr network.SignatureRequest
+		if !recv(network.VerifProtoAuthSignatureRequest, &sr) {
+			ev.Inconclusive("C32: the dialling node did not send its signature request")
+		}
+	}
+	pub := kA.PublicKey().SerializeCompressed()
+	if rapid.Bool().Draw(rt, "uncompressed") {
+		pub = kA.PublicKey().SerializeUncompressed()
+	}
+	sig := aA.Signature(secret)
+	errText := ""
+	switch class {
+	case "otherSession":
+		sig = aA.Signature(other)
+	case "otherKey":
+		sig = aB.Signature(secret)
+	case "wrongClaim":
+		pub = kB.PublicKey().SerializeCompressed()
+	case "mutatedSig":
+		sig = append([]byte{}, sig...)
+		sig[rapid.IntRange(0, 63).Draw(rt, "pos")] ^= byte(1 << uint(rapid.IntRange(0, 7).Draw(rt, "bit")))
+	case "mutatedPub":
+		pub = append([]byte{}, pub...)
+		pub[rapid.IntRange(0, len(pub)-1).Draw(rt, "pos")] ^= byte(1 << uint(rapid.IntRange(0, 7).Draw(rt, "bit")))
+	case "emptySig":
+		sig = nil
+	case "errorReply":
+		errText = "refused"
+	}
+	_ = sameKeys
+	if nodeDials {
+		send(network.VerifProtoAuthSignatureResponse, &network.SignatureResponse{PublicKey: pub, Signature: sig, Error: errText}, srcA)
+	} else {
+		send(network.VerifProtoAuthSignatureRequest, &network.SignatureRequest{PublicKey: pub, Signature: sig}, srcA)
+	}
+	proves, wantID := c32Proves(pub, sig, nodeSecret)
+	if errText != "" && nodeDials {
+		proves = false // the remote end refused: nothing was proved to the node
+	}
+	dir := "peerDials"
+	if nodeDials {
+		dir = "nodeDials"
+	}
+	desc := fmt.Sprintf("protocol %s %s pub=%x sig=%x sessionSecret=%x otherSecret=%x", dir, class, pub, sig, nodeSecret, other)
+	labels := []string{"protocol", "protocol:" + dir, "protocol:" + class}
+	if sess.Passed() {
+		labels = append(labels, "protocol:authenticated")
+	} else {
+		labels = append(labels, "protocol:refused")
+	}
+	rec.Case(desc, !proves, labels...)
+	if sess.Passed() {
+		if !proves {
+			rt.Fatalf("C32 violated: the node treats the peer as authenticated (identity %x) although it did not prove possession of the presented key over this session's secret | case: %s", sess.ID(), desc)
+		}
+		if !bytes.Equal(sess.ID(), wantID) {
+			rt.Fatalf("C32 violated: the peer proved key with identity %x but the node assigned identity %x | case: %s", wantID, sess.ID(), desc)
+		}
+		if class == "honest" {
+			atomic.AddInt64(&c32HonestPassed, 1)
+		}
+	} else if class == "honest" {
+		// not part of the statement (only-if); counted, and the whole sub-check is inconclusive if no
+		// honest handshake is ever authenticated (it could not observe authentication at all)
+		atomic.AddInt64(&c32HonestRefused, 1)
+	}
+}
+
+var c32HonestPassed, c32HonestRefused int64
